@@ -203,6 +203,13 @@ func knownPrintShape(w any) string {
 
 // checkC02: canonical text round-trips.
 func checkC02(o *oracleRun, _ *pathGen, in parseInput) J {
+	if in.astW == nil {
+		if r, _ := goParse(string(in.src)); r["out"] == "glue" {
+			if what := fmt.Sprint(r["what"]); strings.Contains(what, "Marshal") || strings.Contains(what, "Scan") || strings.Contains(what, "Value") || strings.Contains(what, "copy") {
+				return J{"violates": "C02: " + what, "input": in.J()}
+			}
+		}
+	}
 	p := pathOf(in)
 	if p == nil {
 		return nil
